@@ -79,6 +79,21 @@ def _alias_copy(q, o, view):
     return v
 
 
+def _op_after_overwritten_result(q, o, f):
+    """the caller overwrites in place a result it owns, then runs the same operation again on the original operand"""
+    r1 = f(q)
+    r1.copy_(o)
+    return f(q)
+
+
+def _earlier_result_after_overwrite(q, o, f):
+    """an earlier result must not change when a later result of the same operation is overwritten in place"""
+    r0 = f(q)
+    r1 = f(q.clone())
+    r1.copy_(o)
+    return r0
+
+
 def _inplace(q, f):
     """apply an in-place operation to a private copy and return the receiver: it must then hold what the float program holds"""
     z = q.clone()
@@ -170,6 +185,10 @@ def catalogue():
         Op("mul-quantized", a.mul, lambda q, o: q * o, ["pt8"], "float", "diff-scale"),
         Op("relu", a.relu, lambda q, o: torch.relu(q), ALL8, "rescale"),
         Op("softmax", a._softmax, lambda q, o: torch.softmax(q, -1), ["pt8", "ptf8", "pt8v"], "requant"),
+        Op("softmax-after-overwritten-result", a._softmax, lambda q, o: _op_after_overwritten_result(q, o, lambda z: torch.softmax(z, -1)), ["pt8", "ptf8"], "requant", "diff-scale"),
+        Op("softmax-earlier-result-after-overwrite", a._softmax, lambda q, o: _earlier_result_after_overwrite(q, o, lambda z: torch.softmax(z, -1)), ["pt8", "ptf8"], "requant", "diff-scale"),
+        Op("relu-after-overwritten-result", a.relu, lambda q, o: _op_after_overwritten_result(q, o, torch.relu), ["pt8"], "rescale", "diff-scale"),
+        Op("mul-scalar-earlier-result-after-overwrite", a.mul, lambda q, o: _earlier_result_after_overwrite(q, o, lambda z: z * 0.5), ["pt8"], "rescale", "diff-scale"),
         Op("split", a.split, lambda q, o: torch.split(q, 1, 0), ["pt8", "ptf8", "ax0"], "move"),
         Op("split-last", a.split, lambda q, o: torch.split(q, 2, -1), ["pt8"], "move"),
         Op("chunk", a.split, lambda q, o: torch.chunk(q, 2, 0), ["pt8"], "move"),
